@@ -209,6 +209,17 @@ void XMLWriter::location(const location_t& loc)
     endElement();  // end of the "location" element
 }
 
+/* writes a branchpoint; its id continues the numbering of the locations of the template */
+void XMLWriter::branchpoint(const branchpoint_t& branchpoint)
+{
+    const int nr = branchpointBase + branchpoint.bpNr;
+    startElement("branchpoint");
+    writeAttribute("id", concat("id", nr).c_str());
+    writeAttribute("x", std::to_string(STEP * nr).c_str());
+    writeAttribute("y", std::to_string(STEP * nr).c_str());
+    endElement();
+}
+
 /* writes the init tag */
 void XMLWriter::init(const template_t& templ)
 {
@@ -223,7 +234,12 @@ void XMLWriter::init(const template_t& templ)
 /* writes the source of the given edge */
 int XMLWriter::source(const edge_t& edge)
 {
-    int loc = edge.src->nr;
+    // an edge starts in a location or in a branchpoint; branchpoints are numbered after the locations
+    int loc = branchpointBase;
+    if (edge.src != nullptr)
+        loc = edge.src->nr;
+    else if (edge.srcb != nullptr)
+        loc += edge.srcb->bpNr;
     const auto id = concat("id", loc);
     startElement("source");
     writeAttribute("ref", id.c_str());
@@ -234,7 +250,11 @@ int XMLWriter::source(const edge_t& edge)
 /* writes the target of the given edge */
 int XMLWriter::target(const edge_t& edge)
 {
-    int loc = edge.dst->nr;
+    int loc = branchpointBase;
+    if (edge.dst != nullptr)
+        loc = edge.dst->nr;
+    else if (edge.dstb != nullptr)
+        loc += edge.dstb->bpNr;
     const auto id = concat("id", loc);
     startElement("target");
     writeAttribute("ref", id.c_str());
@@ -279,7 +299,7 @@ void XMLWriter::transition(const edge_t& edge)
     auto src = source(edge);
     auto dst = target(edge);
     if (src == dst) {
-        float angle = (edge.src->uid.get_name() != "lpmin") ? (3 * M_PI_2) : M_PI;
+        float angle = (edge.src == nullptr || edge.src->uid.get_name() != "lpmin") ? (3 * M_PI_2) : M_PI;
         selfLoop(src, angle, edge);
     } else {
         int x = STEP * src;
@@ -339,6 +359,12 @@ void XMLWriter::taTempl(const template_t& templ)
     for (auto& loc : templ.locations) {
         location(loc);
         selfLoops[loc.nr] = 0;
+    }
+    // branchpoints
+    branchpointBase = static_cast<int>(templ.locations.size());
+    for (auto& bp : templ.branchpoints) {
+        branchpoint(bp);
+        selfLoops[branchpointBase + bp.bpNr] = 0;
     }
     // initial location
     init(templ);
